@@ -116,7 +116,8 @@ def oracle(run):
             for _ in range(run.budget(6, 60)):
                 t = rng.choice(titles)
                 n = rng.choice([1, 2, 4, 12, 100, 0, rng.randint(1, 999)])
-                sp1, sp2 = rng.choice([" ", "  "]), rng.choice([" ", "  "])
+                # the pattern's white space is Python's: form feed, vertical tab, NBSP, U+2028 ... count as much as a blank does
+                sp1, sp2 = rng.choice([" ", "  ", " ", "\x0c", "\u00a0", " \x0b", "\u2028"]), rng.choice([" ", "  ", " ", "\x0c", "\u00a0", "\x1c", "\u3000"])
                 run.case(("documented", t, phrase, n, sp1, sp2, case), True, kind="documented:" + phrase)
                 for sig, detail in check_heading(t, phrase, n, sp1, sp2, case):
                     if "%" in t and "not-recognised" in sig:
